@@ -41,9 +41,16 @@ def cases(tier, seed):
              "perturb": [float(v) for v in rng.uniform(-0.02, 0.02, 6)], "seed": [seed, "fit", i], "cost": 10,
              # every fourth problem has bounds hugging the truth (+-3 %), so that the bounds handed to the minimiser matter
              "tight_bounds": bool(i % 8 in (1, 4)), "wl_from_data": bool(i % 3 == 1),
+             # the generating scaling sits exactly on the upper bound of its prior (HoloPy's default alpha prior is Uniform(0.5, 1) and
+             # a plain calc_holo has alpha = 1); the caller hands over data that is already a pixel subset (every fifth problem)
+             "alpha_on_bound": bool((i // 2) % 4 == 1), "preflat": bool(i % 5 == 3),
              # region-of-interest style detectors: anisotropic pixels and different x / y offsets (every second problem)
              "spacing_y_factor": float(rng.uniform(0.8, 1.25)) if i % 2 else 1.0,
              "offset": [float(rng.uniform(0.5, 3)), float(rng.uniform(4, 8))] if (i // 2) % 2 == 0 else [0.0, 0.0]}
+        out.append(c)
+    for j, strat in enumerate(["nmpfit", "scipy"]):
+        c = dict(out[j], id="fit-edges-%s" % strat, strategy=strat, start="perturbed", subset=False, tight_bounds=False, alpha_on_bound=False, all_on_bounds=True,
+                 preflat=False, wl_from_data=False, theory="Mie", fit_lens_angle=False, seed=[seed, "edges", j])
         out.append(c)
     return out
 
@@ -82,6 +89,13 @@ def run_case(case):
     bounds = {"r": (0.1, 1.5), "x": (off[0], off[0] + W), "y": (off[1], off[1] + N * spy), "z": (1.0, 40.0), "alpha": (0.3, 1.2), "lens_angle": (0.3, 1.3)}
     if case.get("tight_bounds"):
         bounds = {k: (truth[k] * 0.97, truth[k] * 1.03) for k in keys}
+    if case.get("alpha_on_bound"):
+        bounds["alpha"] = (0.3, truth["alpha"])
+        guess["alpha"] = min(guess["alpha"], truth["alpha"])
+    if case.get("all_on_bounds"):
+        # every generating value sits exactly on an edge of its prior (lower edges, the scaling on its upper edge)
+        bounds = {k: ((truth[k], truth[k] * 1.5) if k != "alpha" else (0.3, truth[k])) for k in keys}
+        guess = {k: (truth[k] * 1.012 if k != "alpha" else truth[k] * 0.98) for k in keys}      # start inside, a percent away
     pri = {k: Uniform(bounds[k][0], bounds[k][1], guess=guess[k], name=k) for k in keys}
     s = Sphere(n=case["n"], r=pri["r"], center=[pri["x"], pri["y"], pri["z"]])
     theory = (MieLens(lens_angle=pri["lens_angle"]) if fit_la else MieLens(lens_angle=case["lens_angle"])) if lens else Mie()
@@ -91,6 +105,11 @@ def run_case(case):
                                   illum_wavelen=None if wl_from_data else wl, illum_polarization=pol)
     model = mk_model()
     npx = int(0.6 * N * N) if case["subset"] else None
+    data_full = data
+    if case.get("preflat"):
+        from holopy.core.metadata import make_subset_data
+        data = make_subset_data(data, pixels=int(0.7 * N * N), seed=77)
+        npx = None
     if case["strategy"] == "nmpfit":
         strat = NmpfitStrategy(npixels=npx, seed=1234 if npx else None)
     else:
@@ -128,14 +147,14 @@ def run_case(case):
     fw = res.forward(got)
     resid["hologram_is_forward"] = relmax(holo.values, fw.values)
     # ... and that forward is the model's own forward on the full detector
-    full = model.forward(got, data)
+    full = model.forward(got, data_full)
     hv = holo
     try:
         resid["hologram_vs_model_forward"] = relmax(hv.transpose(*full.dims).values, full.values) if hv.shape == full.shape or set(hv.dims) == set(full.dims) else relmax(hv.values.ravel(), full.transpose("x", "y", "z").values.ravel())
     except Exception:
         resid["hologram_vs_model_forward"] = relmax(np.sort(hv.values.ravel()), np.sort(full.values.ravel()))
     if set(holo.dims) >= {"x", "y"}:
-        flags["hologram_on_detector_coordinates"] = bool(np.allclose(holo.x.values, data.x.values, rtol=0, atol=1e-12) and np.allclose(holo.y.values, data.y.values, rtol=0, atol=1e-12))
+        flags["hologram_on_detector_coordinates"] = bool(np.allclose(holo.x.values, data_full.x.values, rtol=0, atol=1e-12) and np.allclose(holo.y.values, data_full.y.values, rtol=0, atol=1e-12))
     lp = model.lnposterior(got, res.data)
     resid["max_lnprob"] = fnum(abs(res.max_lnprob - lp) / max(1.0, abs(lp)))
     # second fit with the very same objects
@@ -191,12 +210,13 @@ TOL = {"fixed_point": 1e-9, "fixed_point@second_dataset": 1e-9, "recovery": 1e-6
 def judge(case, obs):
     out = []
     desc = {k: case.get(k) for k in ("theory", "fit_lens_angle", "tight_bounds", "strategy", "subset", "start", "n", "r", "z", "alpha", "npix")}
+    sfx = ".truth_on_bounds" if case.get("all_on_bounds") else ""
     for k, v in obs["resid"].items():
         if not v <= TOL[k]:
-            out.append({"mech": "fit.%s.%s" % (k, case["strategy"]), "detail": "%s=%.3e > %.0e; %s got=%s truth=%s" % (k, v, TOL[k], desc, obs.get("got"), obs.get("truth"))})
+            out.append({"mech": "fit.%s.%s%s" % (k, case["strategy"], sfx), "detail": "%s=%.3e > %.0e; %s got=%s truth=%s" % (k, v, TOL[k], desc, obs.get("got"), obs.get("truth"))})
     for k, v in obs["flags"].items():
         if not v:
-            out.append({"mech": "fit.%s.%s" % (k, case["strategy"]), "detail": "flag false; %s" % desc})
+            out.append({"mech": "fit.%s.%s%s" % (k, case["strategy"], sfx), "detail": "flag false; %s got=%s truth=%s" % (desc, obs.get("got"), obs.get("truth"))})
     return out
 
 
